@@ -301,3 +301,6 @@ LEVEL_NOTE = ("Trusted: Lean kernel; the hand-written model's faithfulness is sa
               "non-ASCII sequence letters are outside the model (seqChar).")
 HARNESS_BIN = "run-io"
 EXTRACT_BINS = []
+
+# the same requests executed 8 at a time in concurrent goroutines (check: PARALLEL / harness: VERIF_PAR)
+PARALLEL = {"quick": {"par": 8, "max_cases": 4000}, "thorough": {"par": 8, "max_cases": 40000, "race": True}}
